@@ -145,6 +145,11 @@ def subst_values(t, tier, placeholders=True):
     out.append(NAN)
     for w in ws[:1]:
         out += inject(w, NAN, max_out=12)
+    # floats at the edge of the range: finite but overflowing once scaled by 10**precision, and inf
+    for z in (1e308, float("inf")):
+        out.append(z)
+        for w in ws[:1]:
+            out += inject(w, z, max_out=6)
     if placeholders:
         # C12 ("for any value"): an int beyond CPython's int -> str limit, alone and inside
         out.append(HUGE)
